@@ -320,6 +320,29 @@ theorem strict_dirTimes (o : Opts) (dest : Str) : ∀ (es : List Entry), Strict 
       · exact strict_dirTimes o dest es
 
 
+/-- overlay conversion on extraction: a refused setxattr / mknod / chown is reported -/
+theorem strict_convertRead (o : Opts) (p : Str) (e : Entry) : Strict o (fun r => r = none) (convertReadP p e) := by
+  unfold convertReadP
+  simp only
+  split
+  · intro r
+    refine ⟨by simp only; split <;> exact True.intro, fun _ hr => ?_⟩
+    have : isErr r = true := by cases r <;> simp_all [isErr]
+    simp only [this, if_true]; rfl
+  · split
+    · intro r
+      refine ⟨?_, fun _ hr => ?_⟩
+      · simp only
+        split
+        · exact True.intro
+        · intro c
+          refine ⟨by simp only; split <;> exact True.intro, fun _ hc => ?_⟩
+          have : isErr c = true := by cases c <;> simp_all [isErr]
+          simp only [this, if_true]; rfl
+      · have : isErr r = true := by cases r <;> simp_all [isErr]
+        simp only [this, if_true]; rfl
+    · exact True.intro
+
 set_option maxHeartbeats 1000000 in
 /-- **the whole extraction loop is strict**: a refused mutating call, at any entry, at any step,
     makes the result an error -/
@@ -358,15 +381,24 @@ theorem strict_unpackLoop (o : Opts) (dest : Str) : ∀ (es dirs : List Entry), 
                     · exact strict_pure o _ _
                     · split
                       · exact strict_pure o _ _
-                      · refine bindS o (failA := fun out => out ≠ .ok) _ _ (strict_createTarFile o _ _ _) ?_ ?_
-                        · intro out hout
-                          have : (out != Out.ok) = true := by simpa using hout
-                          simp only [this, if_true]
-                          exact All_pure _ hout
-                        · intro out
+                      · refine bindS o (failA := fun (r : Option Bool) => r = none) _ _ ?_ ?_ ?_
+                        · split
+                          · exact strict_convertRead o _ _
+                          · exact strict_pure o _ _
+                        · intro conv hconv; subst hconv; exact All_pure _ ne_ok_err
+                        · intro conv
                           split
                           · exact strict_pure o _ _
-                          · exact ih _
+                          · exact ih dirs
+                          · refine bindS o (failA := fun out => out ≠ .ok) _ _ (strict_createTarFile o _ _ _) ?_ ?_
+                            · intro out hout
+                              have : (out != Out.ok) = true := by simpa using hout
+                              simp only [this, if_true]
+                              exact All_pure _ hout
+                            · intro out
+                              split
+                              · exact strict_pure o _ _
+                              · exact ih _
 
 /-! ### from "every outcome" to the fault oracle -/
 
